@@ -77,6 +77,8 @@ theorem hse_pure (e : E) (h : hasSideEffects e = false) : PureVal H e (fun _ => 
     split at h
     · cases h
     · rename_i hop
+      split at h
+      · cases h
       simp only [Bool.or_eq_false_iff, Bool.and_eq_false_iff, Bool.not_eq_false'] at h
       have hx : PureVal H x (fun _ => True) := by
         rcases h.1 with hv | hs
